@@ -182,7 +182,7 @@ CLAIMED = {
   "schedules. See DESIGN.md section 6 (C20).", "6/C20"),
  "C05": ("proof",
   "Lean 4 model of the context manager over regenerated limit functions: kill_exact / kill_monotone / no_step_after_kill theorems + level A/B correspondence on the real Runtime + Lua-level limit sweeps",
-  "Props/C05.lean: limited_metered, kill_step_exact, kill_exact (killed iff L <= usage for every request list), kill_monotone, results_identical_when_not_killed, cpu_never_reaches_limit, kill_is_final, "
+  "Props/C05.lean: atLimit_monotone / atLimit_antitone_limit / atLimit_unlimited / dominates_antitone (regenerated limit test monotone in the counter, antitone in the limit), limited_metered, kill_step_exact, kill_exact (killed iff L <= usage for every request list), kill_monotone, results_identical_when_not_killed, cpu_never_reaches_limit, kill_is_final, "
   "no_step_after_kill; and for the repaired propagation (0426709, mirrored in Model.CallCtx: recorded resource + propagateTermination): limitless_bracket_cannot_absorb (every well-formed body), uninterceptable, kill_exact_nested, kill_exact_nested_from_root, kill_monotone_nested (programs of requests and ANY nesting of limit-less brackets: killed iff L <= used + cost, the refused request is the last event), child_with_own_limit_dies_alone; recover_sites_classified (regenerated instance: every recover() of runtime/ and lib/, listed by extract/recoversites on each run, is a hand-classified site of Model/RecoverExpect.lean — a new or edited recover site breaks it). Lua-level: the limit is also driven INTO every callback site (sort comparator, __lt/__index/__newindex/__call/__concat/__len/__eq/__tostring/__pairs, gsub / load callbacks, xpcall handlers, __close on normal and error exit, __gc at context exit and on collectgarbage, coroutine bodies) with a pcall around, and 12 scanning templates (%b, frontier, backtracking, plain find, gsub/gmatch) must be charged CPU above a lower bound in N; 26 size-taking non-pattern calls (pack c<n>/x/z/s4, unpack, rep, table.concat, format, byte, move/insert/remove/sort, reverse/upper/lower, concat, utf8.*, load, gsub) must be charged CPU + memory >= work/8 and be killed under small limits (work_amplify); coroutine.close of a suspended coroutine (bare, in pcall, from a handler, from another coroutine, two handlers, inside a pcall frame) is one of the callback sites. The unmetered 'x' padding of string.pack found by this leg is repaired (a8c6452). Model/Ctx.lean mirrors runtimecontextmanager.go operation by operation on top of the REGENERATED Generated.Resources (smallerLimit, atLimit, Remove, Merge, Dominates, flag/status constants); Model/CallCtx.lean is Thread.CallContext with the deferred pop and recover explicit. Level B compares the whole context stack (limits, used, status, due, flags of every Parent()) after every operation on a real *rt.Runtime over 36^3 exhaustive boundary histories, random histories incl. API abuse near 2^64 and random CallContext trees; level A re-checks the Spec.Quota relations on the implementation's own trace; Lua legs sweep limits around each generated program's own usage. The Lua leg checks killed iff L <= u, identical trace when not killed, killed trace is a prefix, used < L on generated programs "
   "(pcall loops, coroutines, handlers) x ~40 limits each.",
   "Time limits, message handlers and coroutines are outside the model; 'real work between two counter increments is bounded' is sampled by amplification templates only (not proved). The interception of kills "
